@@ -286,11 +286,11 @@ theorem finishDo_calls (env : Env V) (n : Node J V) (mod : Module J V) (c : Comm
 theorem handleChange_verdict (pre : Predef) (env : Env V) (n : Node J V) (hwf : Node.WF pre n) (spec : Spec) (j : J) :
     match changeVerdict pre env n spec j with
     | .refuse cls => handleChange pre env n spec j = ⟨.error cls, [], [], n⟩
-    | .admit m attr hw v w => ∃ mod p, mod ∈ n ∧ mod.name = m ∧ p.attr = attr ∧ p.hasWrite = hw ∧
+    | .allow m attr hw v w => ∃ mod p, mod ∈ n ∧ mod.name = m ∧ p.attr = attr ∧ p.hasWrite = hw ∧
         (∃ m' a', target "target" spec = some (m', a') ∧ lookupParam pre n m' a' = .ok (mod, p)) ∧
         admitChange env mod p j = .ok (v, w) ∧
         handleChange pre env n spec j = finishWrite pre env n mod p v w
-    | .admitDo _ _ _ => False := by
+    | .allowDo _ _ _ => False := by
   unfold changeVerdict handleChange
   cases ht : target "target" spec with
   | none => rfl
@@ -338,11 +338,11 @@ theorem handleDo_verdict (pre : Predef) (env : Env V) (n : Node J V) (hwf : Node
     (data : Option J) :
     match doVerdict pre n spec data with
     | .refuse cls => handleDo pre env n spec data = ⟨.error cls, [], [], n⟩
-    | .admitDo m attr arg => ∃ mod c, mod ∈ n ∧ mod.name = m ∧ c.attr = attr ∧
+    | .allowDo m attr arg => ∃ mod c, mod ∈ n ∧ mod.name = m ∧ c.attr = attr ∧
         (∃ m' a', targetDo spec = some (m', a') ∧ lookupCommand pre n m' a' = .ok (mod, c)) ∧
         admitDo c data = .ok arg ∧
         handleDo pre env n spec data = finishDo env n mod c arg
-    | .admit _ _ _ _ _ => False := by
+    | .allow _ _ _ _ _ => False := by
   unfold doVerdict handleDo
   cases ht : targetDo spec with
   | none => rfl
